@@ -260,8 +260,10 @@ def verify_twice(ctx):
     ctx.bound("two arbitrary messages (same or different signer, same or different signature values) verified one after the other on one service instance")
 
 
-def _replay_verify_service(h, m, res, first=None):
+def _replay_verify_service(h, m, res, first=None, sign_service=None, out=None):
     """real VerifyService with a scripted library / backend that answer as the model decided, dictionaries rebuilt from the model"""
+    export = out
+
     def f(vals):
         from unittest import mock
         with fake_coder():
@@ -313,7 +315,7 @@ def _replay_verify_service(h, m, res, first=None):
                     if data == ("encode_to_be_signed_data" + repr(sd["tbsData"])).encode():
                         return bool(vals[f"_V_{cur.tag}"]) and signature == sd["signature"] and pk == at_d["toBeSigned"]["verifyKeyIndicator"][1]
                     return bool(vals["_V_ticket"])
-            svc = VerifyService(B(), lib, None)
+            svc = VerifyService(B(), lib, sign_service)
             out = []
             with mock.patch.object(VS.SECURITY_CODER, "decode_etsi_ts_103097_data_signed", lambda b: msgs[b.decode()]):
                 for i_, mm in enumerate(order):
@@ -324,6 +326,8 @@ def _replay_verify_service(h, m, res, first=None):
                         return "headerInfo" in msgs[mm.tag]["content"][1]["tbsData"], f"verify raised {type(e).__name__}: {e}"
             conf = out[-1]
             sd = msgs[m.tag]["content"][1]
+            if export is not None:
+                export.update(confirm=conf, signed=sd)
             asked_this = any(c[0] == ("encode_to_be_signed_data" + repr(sd["tbsData"])).encode() and c[1] == sd["signature"] and c[2] == at_d["toBeSigned"]["verifyKeyIndicator"][1]
                              for c in vcalls[-3:])
             want = bool(vals["_want"])
